@@ -1045,6 +1045,169 @@ def _zdt_worker(args, acc):
     return acc
 
 
+
+# ------------------------------------------------------------------------------------------------ zclock: histories
+
+GETTERS = ("get_current_instant", "get_current_zoned_date_time", "get_current_offset_date_time", "get_current_local_date_time",
+           "get_current_date", "get_current_time_of_day")
+
+
+def _getter(zc, name):
+    if name == "get_current_time_of_day" and not hasattr(zc, name):
+        return getattr(zc, "get_curent_time_of_day")          # spelling used by this tree
+    return getattr(zc, name)
+
+
+def zclock_targets(zidx, tier, seed):
+    """Instants a clock is reset to: on and 1 ns before real transitions of the zone (+ the zdt alphabet in thorough)."""
+    E = env()
+    zone = E.zones[zidx][1]
+    tr = zone_transitions(zone, 25567 * NSD, E.ranges)
+    xs = []
+    if tr:
+        cand = [max(tr, key=lambda t: t[2] - t[1]), min(tr, key=lambda t: t[2] - t[1]), tr[-1], tr[(seed * 7 + len(tr) // 2) % len(tr)]]
+        for t in cand:
+            for x in (t[0] - 1, t[0]):
+                if x not in xs:
+                    xs.append(x)
+    if tier == "thorough":
+        for x in zdt_instants(zidx, tier, seed)[0]:
+            if x not in xs and E.ranges.imin + 400 * NSD < x < E.ranges.imax - 400 * NSD:
+                xs.append(x)
+    return xs
+
+
+def zclock_ops(targets):
+    ops = [("advance_to_next_transition",), ("advance_back_before_interval_start",), ("advance", 1), ("advance", -1),
+           ("auto_advance", -H), ("auto_advance", 0)]
+    ops += [("reset", t) for t in targets]
+    return ops
+
+
+def zclock_worker(args):
+    return guarded("zclock", _zclock_worker, args, None)
+
+
+def _zclock_worker(args, acc):
+    """One ZonedClock over one FakeClock per history: every sequence of <= depth clock movements, every getter read after
+    each movement and compared with the (instant, zone, calendar) model.  Model of the clock: [now, auto]; a reading
+    returns now and then adds auto."""
+    import itertools
+    from pyoda_time import ZonedClock
+    from pyoda_time.testing import FakeClock
+    tier, zidx, cal_id, seed, depth = args
+    E = env()
+    rg = E.ranges
+    zid, zone = E.zones[zidx]
+    cal = E.cals[cal_id]
+    targets = [t for t in zclock_targets(zidx, tier, seed)
+               if R.z_create(rg, t, zidx, cal_id, offset_at) is not RAISES and R.z_create(rg, t - 40 * H, zidx, cal_id, offset_at) is not RAISES]
+    if not targets:
+        acc.outcome("zclock: no transition of %s inside calendar %s" % (zid, cal_id))
+        return acc
+    ops = zclock_ops(targets)
+    bounds = {}
+
+    def interval_bounds(i):
+        b = bounds.get(i)
+        if b is None:
+            zi = zone.get_zone_interval(mk_instant(i))
+            b = bounds[i] = (ins_ns(zi.start) if zi.has_start else None, ins_ns(zi.end) if zi.has_end else None)
+        return b
+
+    def read_all(zc, st, seq, moved):
+        """Read every getter once; each consumes one clock reading in the model."""
+        for g in GETTERS:
+            r = st[0]
+            st[0] += st[1]
+            acc.count(evaluations=1)
+            case = {"part": "zclock", "zone": zid, "calendar": cal_id, "start": targets[0], "sequence": [list(o) for o in seq], "getter": g}
+            o = offset_at(zidx, r)
+            m = R.M(r, o, cal_id)
+            d, n = m.local()
+            refuse = g != "get_current_instant" and not rg.day_ok(cal_id, d)
+            try:
+                got = _getter(zc, g)()
+            except Exception as e:  # noqa: BLE001
+                if refuse and exc_origin(e) != "harness":
+                    acc.outcome("zclock: reading refused, local date outside the calendar")
+                    continue
+                acc.lib_exception("C11/zclock/%s" % g, e, case)
+                return False
+            if refuse:
+                acc.violation("C11/zclock/%s/must-raise/range-edge" % g, "ZonedClock(%s, %s) at instant %d: local day %d is outside the calendar "
+                              "but %s() returned a value" % (zid, cal_id, r, d, g), case)
+                return False
+            if g == "get_current_instant":
+                obs, want = ins_ns(got), r
+            elif g == "get_current_zoned_date_time":
+                obs = (ins_ns(got.to_instant()),) + zcanon(got)
+                want = (r, d, n, o, cal_id, zid)
+            elif g == "get_current_offset_date_time":
+                obs, want = canon(got), m.key()
+            elif g == "get_current_local_date_time":
+                obs, want = (day_of(got.date), got.nanosecond_of_day, got.calendar.id), (d, n, cal_id)
+            elif g == "get_current_date":
+                obs, want = (day_of(got), got.calendar.id), (d, cal_id)
+            else:
+                obs, want = got.nanosecond_of_day, n
+            if obs != want:
+                acc.violation("C11/zclock/%s/%s" % (g, moved),
+                              "ZonedClock(%s, %s) after clock movements %r: %s() gives %r, model (instant %d ns, offset %d s) says %r"
+                              % (zid, cal_id, seq, g, obs, r, o, want), case)
+                return False
+        return True
+
+    def apply(clock, st, op):
+        k = op[0]
+        if k == "reset":
+            clock.reset(mk_instant(op[1]))
+            moved = "after-backward-move" if op[1] < st[0] else "after-forward-move"
+            st[0] = op[1]
+            return moved
+        if k == "auto_advance":
+            clock.auto_advance = mk_dur(op[1])
+            st[1] = op[1]
+            return "after-backward-move" if op[1] < 0 else "same-instant"
+        if k == "advance":
+            delta = op[1]
+        elif k == "advance_to_next_transition":
+            end = interval_bounds(st[0])[1]
+            delta = 0 if end is None else end - st[0]
+        else:
+            start = interval_bounds(st[0])[0]
+            delta = 0 if start is None else start - 1 - st[0]
+        clock.advance(mk_dur(delta))
+        st[0] += delta
+        return "after-backward-move" if delta < 0 else ("after-forward-move" if delta > 0 else "same-instant")
+
+    start = targets[0]
+    for L in range(1, depth + 1):
+        for seq in itertools.product(ops, repeat=L):
+            acc.count(states=1)
+            clock = FakeClock(mk_instant(start))
+            zc = ZonedClock(clock, zone, cal)
+            st = [start, 0]
+            if not read_all(zc, st, [], "first-reading"):
+                return acc
+            o_prev = offset_at(zidx, st[0])
+            for j, op in enumerate(seq):
+                acc.count(transitions=1)
+                moved = apply(clock, st, op)
+                o_now = offset_at(zidx, st[0])
+                if o_now != o_prev:
+                    acc.count(nontrivial=1)
+                    acc.outcome("zclock: movement crosses a transition (%s)" % moved)
+                else:
+                    acc.outcome("zclock: movement inside one interval (%s)" % moved)
+                o_prev = o_now
+                if not read_all(zc, st, list(seq[:j + 1]), moved):
+                    break
+    acc.note("zclock %s/%s" % (zid, cal_id), {"reset targets": len(targets), "operations": len(ops), "depth": depth})
+    acc.sample({"zclock": zid, "calendar": cal_id, "operations": [list(o) for o in ops[:8]], "depth": depth})
+    return acc
+
+
 # ------------------------------------------------------------------------------------------------ offsets sweep
 
 def nod_alphabet(tier):
@@ -1239,6 +1402,17 @@ def run(ctx):
             ctx.merge_part("zdt", acc)
         ctx.note("zdt zones", ntr)
 
+    if not only or "zclock" in only:
+        zc_cals = ["Julian", "Hebrew Civil", "ISO"] if tier == "quick" else ["Julian", "Hebrew Civil", "ISO", "Badi", "Persian Simple", "Coptic"]
+        zc_cals = [c for c in zc_cals if c in E.cals]
+        jobs = [(tier, zidx, c, seed, 3) for zidx, (zid, z) in enumerate(E.zones) for c in zc_cals
+                if zone_transitions(z, 25567 * NSD, rg)]
+        for acc in pmap(zclock_worker, _rot(jobs, seed), ctx.procs):
+            ctx.merge_part("zclock", acc)
+        if tier == "quick":
+            ctx.cap("quick tier: ZonedClock histories in calendars %s with resets to 8 transition-adjacent instants per zone; "
+                    "thorough adds calendars and the whole zdt instant alphabet as reset targets" % zc_cals)
+
     if not only or "offsets" in only:
         jobs = [(tier, a, b, seed) for a, b in chunks(R.OFFSET_MIN_S, R.OFFSET_MAX_S + 1, 2048)]
         for acc in pmap(offsets_worker, _rot(jobs, seed), ctx.procs):
@@ -1284,6 +1458,12 @@ def replay(rec) -> bool:
         zid = case["init"][1]
         zidx = [z[0] for z in E.zones].index(zid)
         a = zdt_worker(("thorough", zidx, [case["init"][0]], [case["init"][2]], {case["init"][2]}))
+        return bool(a.violations)
+    if part == "zclock":
+        zidx = [z[0] for z in E.zones].index(case["zone"])
+        a = zclock_worker(("thorough", zidx, case["calendar"], rec.get("seed", 0), max(1, len(case.get("sequence", [])))))
+        if not a.violations:
+            a = zclock_worker(("quick", zidx, case["calendar"], rec.get("seed", 0), max(1, len(case.get("sequence", [])))))
         return bool(a.violations)
     if part == "offsets":
         o = case["offset"]
